@@ -223,6 +223,56 @@ CLAIMED["C19"] = dict(
     technique="Lean 4 proof over decimal fixed-point and token/line models + byte-level differential tie",
 )
 
+CLAIMED["C01"] = dict(
+    category="other",
+    text="The property is a statistical acceptance test; no theorem about a model can decide whether a sampled run of the "
+         "Python falls inside a band. What the check consists of: (1) theorems for the exact reference: the gambler's-ruin "
+         "recurrence has the unique solution (k+1)/(k+2) for every k, and the walk's own finite-horizon law converges to "
+         "it with an explicit geometric bound; (2) theorems for the estimator computed from data rows (ratio of "
+         "non-negative sums, in [0,1], weighted mean, additive over chunks, invariant under common column rescalings; "
+         "counterexample for single-row rescaling); (3) detailed balance of the shooting length rule min(1, n_old/n_new) "
+         "for all path-length pairs, with the proved counterexample for the pre-fix rule n_old/(n_new+1); (4) statistical "
+         "tie: the REAL scheduler() with a synchronous runner (pickle boundary kept) and a lattice plug-in engine loaded "
+         "through create_external, all move assignments, caps, 1..n-1 workers, random completion order, one real restart; "
+         "the Lean estimator (exact rationals) and a Python twin agree exactly; band = 6 sigma_eff (block jackknife with "
+         "a binomial floor) per estimate and for pooled groups. Quick resolves ~10-30 % per estimate (gross bias), "
+         "thorough 0.2-0.3 % pooled (it resolves the 1-2 % bias of the pre-fix length rule at 6.9 sigma).",
+    design_ref="DESIGN.md §6 C01",
+    technique="Lean 4 theorems for reference values, estimator algebra and detailed balance + calibrated statistical tie (not a proof of unbiasedness)",
+    level_note="Unbiasedness itself is NOT proved (ergodic theorem for the full chain is out of reach); bias below the band "
+               "is invisible; wire-fencing kernel reversibility is not proved (only its weights, C10). Trusted: Lean kernel for "
+               "the listed theorems, the lattice plug-in, the jackknife calibration, numpy's generators.",
+)
+CLAIMED["C06"] = dict(
+    category="proof",
+    text="Information-preservation argument on the state-machine model: observational equality ObsR (everything sysStep "
+         "reads; frac/wts as finite maps) is respected by prep, step and any run of steps; restart_equivalence_one_worker: "
+         "for every split point the run restarted from restore(persist) and the uninterrupted run consume the same pick "
+         "outcome at the same stream position with the same spawn ordinal and end observationally equal with identical "
+         "appended data rows (restore_persist itself: scalar part proved, the slot-by-slot reload is a hypothesis "
+         "discharged by evaluation on concrete states: _partial); reissue_exact for any number of workers (recorded jobs "
+         "re-issued in order, re-recorded; survives a second restart); initiate_bound. Byte identity is established by the "
+         "tie: REAL end-to-end runs (setup_config, scheduler(), run_md, PathStorage, write_toml) with a lattice plug-in and "
+         "the TurtleMD double well, seeds 0,1,2,.., every split point, kill and steps stops, chains of up to 3 restarts, "
+         "2-7 workers for the re-issue statements; files compared byte for byte.",
+    design_ref="DESIGN.md §6 C06",
+    technique="Lean 4 proof (simulation/observational-equality argument) + byte-level end-to-end restart correspondence",
+)
+CLAIMED["C08"] = dict(
+    category="proof",
+    text="Effect-level model of one step of treat_output/write_toml (mkdir, open-w, writes, remove, move, delete_old block, "
+         "data-row append, temp-file + rename of restart.toml) and of the restart (setup_config incl. clean_data_file); for "
+         "EVERY reachable state, step outcome (any number of accepted ensembles, files, delete queue, delete_old "
+         "off/on/all) and EVERY crash point (before any effect, or half-way through a write): crash_restartable, "
+         "crash_paths_present, crash_no_live_file_lost, crash_restore_inv, continue_rows_unique over arbitrary sequences of "
+         "steps and crash+restarts, delete_block_rmdir_safe; the pre-fix windows are kept as proved counterexamples. Tie = "
+         "fault enumeration on the real code: every audited file-system effect index of every step kind (sh/wf/zero swap "
+         "accept/reject, delete_old variants, W=2) crashed with os._exit, restarted through the real entry point, continued "
+         "to the end; trees compared key by key with the model, predicates evaluated on the real trees/files.",
+    design_ref="DESIGN.md §6 C08",
+    technique="Lean 4 proof over an effect-sequence model for all crash indices + exhaustive crash-point fault enumeration",
+)
+
 NOT_YET = "check not built yet at this commit (work in progress; see DESIGN.md §8 work order)"
 
 
